@@ -410,6 +410,55 @@ def _specialise_with(fn_node, decide):
     return _rewrite(fn_node, f)
 
 
+def specialise_consts(fn_node, sn, const_of):
+    """Third specialisation step: tests on a CLASS CONSTANT read through self / cls — `self.X is None`, `self.X is not None`,
+    `self.X == <const>`, `self.X in (<consts>)`, plain truth of `self.X`, under not / and / or — are settled with the value the
+    class under analysis has for X (const_of(attr) -> ast.Constant | None: resolved through that class' MRO, only for
+    attributes no code ever re-binds).  E.g. one generic accessor driven by a per-class attribute."""
+    me = {sn, "cls"}
+
+    def value(e):
+        if isinstance(e, ast.Attribute) and isinstance(e.ctx, ast.Load) and isinstance(e.value, ast.Name) and e.value.id in me:
+            return const_of(e.attr)
+        if isinstance(e, ast.Constant):
+            return e
+        return None
+
+    def decide(t):
+        if isinstance(t, ast.UnaryOp) and isinstance(t.op, ast.Not):
+            v = decide(t.operand)
+            return None if v is None else not v
+        if isinstance(t, ast.BoolOp):
+            vals = [decide(v) for v in t.values]
+            if isinstance(t.op, ast.And):
+                return False if any(v is False for v in vals) else True if all(v is True for v in vals) else None
+            return True if any(v is True for v in vals) else False if all(v is False for v in vals) else None
+        if isinstance(t, ast.Compare) and len(t.ops) == 1:
+            op, a, b = t.ops[0], t.left, t.comparators[0]
+            if not any(isinstance(x, ast.Attribute) for x in (a, b)):
+                return None
+            va = value(a)
+            if isinstance(op, (ast.In, ast.NotIn)) and va is not None and isinstance(b, (ast.Tuple, ast.List, ast.Set)) and all(isinstance(e, ast.Constant) for e in b.elts):
+                r = va.value in [e.value for e in b.elts]
+                return r if isinstance(op, ast.In) else not r
+            vb = value(b)
+            if va is None or vb is None:
+                return None
+            if isinstance(op, (ast.Is, ast.IsNot)) and (va.value is None or vb.value is None):
+                r = va.value is None and vb.value is None
+                return r if isinstance(op, ast.Is) else not r
+            if isinstance(op, (ast.Eq, ast.NotEq)):
+                r = va.value == vb.value
+                return r if isinstance(op, ast.Eq) else not r
+            return None
+        if isinstance(t, ast.Attribute):
+            v = value(t)
+            return None if v is None else bool(v.value)
+        return None
+
+    return _specialise_with(fn_node, decide)
+
+
 def specialise_identity(fn_node, sn, flow: Flow, is_a):
     """Second specialisation step, on a body already specialised to one class of self: tests `X is self` / `X is not self`
     (under not / and / or) are settled where X can only stand for self (True), or only for parameters that a refusing guard of
